@@ -464,14 +464,14 @@ FACETS = {
     "lossmin_physical": {
         "strategy": lossmin_case,
         "check": check_lossmin,
-        "budget": {"quick": {"examples": 160, "shards": 16}, "thorough": {"examples": 2000, "shards": 16}},
+        "budget": {"quick": {"examples": 160, "shards": 16}, "thorough": {"examples": 960, "shards": 16}},
         "nontrivial": "few-shot or arbitrary data, or true object on the boundary",
         "min_nontrivial": 20,
     },
     "exact_recovery_backtracking": {
         "strategy": recovery_case,
         "check": check_recovery,
-        "budget": {"quick": {"examples": 64, "shards": 16}, "thorough": {"examples": 1600, "shards": 16}},
+        "budget": {"quick": {"examples": 64, "shards": 16}, "thorough": {"examples": 800, "shards": 16}},
         "nontrivial": "every conclusive case (exact data of a constructed physical object through the full estimator)",
         "min_nontrivial": 10,
     },
